@@ -24,6 +24,7 @@ struct RunStats {
     int64_t execs = 0, faultedExecs = 0;
     int64_t fired[F_KINDS] = {0};
     std::set<uint64_t> scenarios;
+    std::set<uint64_t> cases;  // distinct (input, fault kind, first failing index) with a fault fired
     std::set<std::string> sitesFailed, sitesReached;
     void toJson(JVal &j) const {
         j.set("execs", execs);
@@ -35,6 +36,11 @@ struct RunStats {
         JP sc = JVal::arr();
         for (auto s : scenarios) sc->push(JVal::str(hex64(s)));
         j.set("scenarios", sc);
+        if (!cases.empty()) {
+            JP cs = JVal::arr();
+            for (auto s : cases) cs->push(JVal::str(hex64(s)));
+            j.set("cases", cs);
+        }
         JP sf = JVal::arr();
         for (auto &s : sitesFailed) sf->push(JVal::str(s));
         j.set("sites_failed", sf);
